@@ -496,6 +496,34 @@ def _sim_roundtrip(aa, v, H, W, m, mask, bmask, name, K, img, sky, atol):
          lambda: "shape %s" % (md.data.shape_native,))
     model = md.convolver.convolve_image(
         image=aa.Array2D(values=img.copy(), mask=mask), blurring_image=aa.Array2D(values=img.copy(), mask=bmask))
+    # history: the masked dataset (its convolver has just been read) is masked AGAIN with other masks of the same frame,
+    # among them one with the same number of pixels but a different shape; each derived dataset must blur with frames of
+    # its own mask, so the generating image is still fitted with zero residual
+    un = np.argwhere(~m)
+    if len(un) >= 3:
+        alts = []
+        m_a = m.copy()
+        m_a[tuple(un[0])] = True  # one pixel fewer
+        alts.append(m_a)
+        cand = np.argwhere(m & ~np.array(bmask) if False else m)
+        inner = [tuple(c) for c in cand if kh // 2 <= c[0] < H - kh // 2 and kw // 2 <= c[1] < W - kw // 2] if (kh := K.shape[0]) and (kw := K.shape[1]) else []
+        if inner:
+            m_b = m.copy()
+            m_b[tuple(un[0])] = True
+            m_b[inner[0]] = False  # same count, different shape
+            alts.append(m_b)
+        for m_alt in alts:
+            mk = aa.Mask2D(mask=m_alt.copy(), pixel_scales=PIXEL_SCALES)
+            try:
+                bm = mk.derive_mask.blurring_from(kernel_shape_native=K.shape)
+            except Exception:
+                continue
+            md2 = md.apply_mask(mask=mk)
+            mod2 = md2.convolver.convolve_image(image=aa.Array2D(values=img.copy(), mask=mk), blurring_image=aa.Array2D(values=img.copy(), mask=bm))
+            r2 = _a(md2.data.slim) - _a(mod2.slim)
+            v.ok(dom.exact(_a(md2.convolver.mask), m_alt) and r2.shape == (int((~m_alt).sum()),) and dom.close(r2, np.zeros(r2.shape), atol=max(atol, 1e-11) * max(1.0, 4 * np.abs(K).sum())),
+                 "simulator-fit:residual:re-masked-dataset",
+                 lambda: "frame %dx%d psf %s: dataset masked twice (second mask %s): max |residual| %s" % (H, W, name, np.flatnonzero(~m_alt.ravel()).tolist(), np.max(np.abs(r2)) if r2.size else r2.shape))
     resid = _a(md.data.slim) - _a(model.slim)
     v.ok(resid.shape == (n,) and dom.close(resid, np.zeros(n), atol=max(atol, 1e-11) * max(1.0, 4 * np.abs(K).sum())), "simulator-fit:residual",
          lambda: "frame %dx%d mask %s psf %s=%s: max |residual| %s" % (
